@@ -62,6 +62,9 @@ def _b_int(I, a, k):
         if v.kind == REAL:
             # int() truncates toward zero
             t = v.t
+            ts = z3.simplify(t)
+            if z3.is_app(ts) and ts.decl().kind() == z3.Z3_OP_TO_REAL:
+                return Sym(INT, ts.arg(0))
             return Sym(INT, z3.If(t >= 0, z3.ToInt(t), -z3.ToInt(-t)))
         if v.kind == STR:
             from . import strparts
@@ -96,6 +99,14 @@ def _b_float(I, a, k):
             raise PyExc('ValueError')
     if isinstance(v, Sym) and v.kind in (INT, REAL):
         return Sym(REAL, I.term(v, REAL))
+    if isinstance(v, Sym) and v.kind == STR:
+        from . import strparts
+        r = strparts.int_value(I, v)
+        if r == 'ValueError':
+            raise PyExc('ValueError', 'float of non-numeric string')
+        if r is not strparts.NOTFOUND:
+            return Sym(REAL, I.term(r, REAL))
+        raise Unsupported('float() of an unstructured symbolic string')
     if isinstance(v, _L().PyDecimal):
         return float(v.value)
     raise Unsupported('float() of ' + type(v).__name__)
